@@ -63,12 +63,42 @@ objects:   earlier Changelog objects are kept alive and re-verified (text and fi
            negative control Bug = "InternedVersions"); afterwards the same text (and later other texts with
            the same version strings) is parsed again and must expose what is written.  The version of the
            block whose own handed-out Version was edited is not judged on that object.
+api:       entry point / argument                          | exercised as
+           Changelog(file) / parse_changelog(file): str, bytes  | judged: every well-formed text; faulted: truncated (incl. inside a character)
+           ... file object (text / binary, 9 kinds)             | judged: every kind; faulted: read raises at line k, early EOF, short read inside a character
+           ... iterable of str / byte lines (list, tuple, gen)  | judged; faulted: iterator raises at item k (4 exception classes), truncated last item
+           strict / allow_empty_author / max_blocks / encoding  | strict=True judged; the others in unjudged earlier parses of a used object
+           str() / bytes() / write_to_open_file / str(block)    | judged (round trip, histories); write_to_open_file also with a failing file object (unjudged step)
+           block attributes, other_pairs, changes(), versions   | judged (as written; in-place edits in histories)
+           new_block / add_change / set_* / add_trailing_line   | histories (FormatIsCurrent)
 forms:     the text arrives in every form the constructor documents ("str, list of str, or file-like ... an
            iterator of lines such as a filehandle"; the type comment adds bytes and iterables of bytes
            lines; lines with and without newline): str, bytes, StringIO, BytesIO, a real file, lists of
            lines with / without newlines, of bytes lines, a generator, a tuple, and parse_changelog() on a
            new and on an already used object -- identical verdicts (spec: PEofF; the forms differ on
            blank-only texts only, FormsAgree).
+faults:    notes/SIZE_STRESS.md part 5 (harness/changelog_faults.py).  The constructor / parse_changelog accept a
+           caller-supplied object (file object, iterable of str or byte lines, bytes); the statement says nothing
+           about an input that FAILS, so such a call is never judged -- but it is a step of the history, and the
+           statement quantifies over all well-formed texts whatever the process did before.  Spec (Mode "reuse"):
+           rs.carry in FaultKinds = how the previous parse of the process ended ("exc" the caller's iterator / read
+           raised OSError / ValueError / KeyError / a private exception at the first, a middle or the last line;
+           "eofLine" / "eofInLine" / "eofInChar" the input ended early at a line end / inside a line / inside a
+           multi-byte character: truncated file, short read), rs.f2 in {"text", "lines", "blines"} (byte lines are
+           what the parser decodes line by line), KeptTail = <<>> (the reference keeps nothing), InputIntact,
+           ParseIsHistoryFree; negative control Bug = "DecoderTail" (round-6 seeded change L).  TraceChangelog: op
+           FaultParse (document unchanged, rs.carry set; every later Reparse shows what is written).  Binding:
+           (a) one concretization of every third enumerated text is parsed right after a fault step (by another
+           object; every fourth time by the object that then parses the text), the judged form rotating through
+           all 23 input forms; (a'') every 7th (thorough: every) CASE of Mode "reuse" -- well-formed text x pf x
+           f2 x carry, all 30 combinations per text -- is replayed on a used object; (b) a third of the prefix-
+           closure traces have fault steps before one or two prefixes, histories draw FaultParse among their calls,
+           mostly followed by a Reparse from byte lines; reused_text / reused_obj histories contain fault steps
+           on the object under test.  What came out of the faulted parses is evidence only (fault_steps).
+           Writers: write_to_open_file(f) with a file object whose first / second write() raises or accepts only
+           half of the text (FaultyWriter) is a step of the formatting histories (replay: before any call of a
+           TLC history; traces: op FmtFail) -- never judged; formatting reads the document, so document and
+           reference output stay what they are and every later output must be current.
 characters: notes/SIZE_STRESS.md part 2: decomposed text next to its precomposed twin, singletons, ligatures,
            full-width forms, Hangul jamo, case-mapping hazards, U+FEFF / joiners / soft hyphen / bidi marks,
            non-BMP, white-space look-alikes inside tokens, line-final characters whose UTF-8 form ends in
@@ -88,7 +118,7 @@ import changelog_faults as cf
 MANIFEST = dict(
     technique="TLA+ spec Changelog (five-state parser automaton with incremental outputs + formatter as inverse operator + deb-changelog(5) generator automaton in lock-step) model-checked by TLC over all bounded well-formed texts; every TLC case replayed with grammar-driven concretizations into Changelog(text, strict=True); prefix-closure traces of random well-formed changelogs validated by TLC (TraceChangelog) on independently classified lines",
     text="TLC enumerates every well-formed changelog of up to 3 blocks with up to 3 body lines each (change lines and blank lines in any order), up to 2 leading and up to 2 separating blank lines, runs the parser automaton in lock-step with the generator and checks in every accepting state that no branch warned, that formatting the parsed document yields the consumed text and that every block holds exactly the header, change lines, trailer and trailing lines the generator wrote, in file order. Each enumerated text carries the block structure computed by the specification and is replayed k times with generated packages, versions (epochs, hyphens, tildes), 1-3 distributions with dots and hyphens, urgency with and without comment, 0-2 extra key=value pairs, change text with non-ASCII, '#', ':', tabs and trailer look-alikes, trailers with and without weekday, 1- and 2-digit day and hour, arbitrary zones, quoted / bracketed / empty names and mails: strict parsing under warnings-as-errors must return, str() must reproduce the text byte for byte and every block attribute must equal what was written. Formatting is part of the history: TLC enumerates short histories of formatting calls, attribute assignments on any block, in-place container edits, new_block and add_change on two-block changelogs and hands out the reference text of the current document for every formatting call; the real object must return exactly that text (after having been formatted before and between the edits) and it must parse back to the same fields. In the other direction random well-formed changelogs of up to 60 lines are parsed prefix by prefix, lines are classified by an independent classifier and TLC replays the automaton on the observed counts, flags and interned block contents.",
-    note="Small scope for the exhaustive part (<= 3 blocks x <= 3 body lines, formatting histories of <= 4 calls on two-block changelogs); payload characters are sampled (k concretizations per case, seeded; every 150th case size-stressed: long names/versions/lines, epochs >= 2**31, 100 pairs, runs of 100-1000 lines, 100-1000 blocks). Lines never contain a str.splitlines() boundary character (DESIGN D1). Trusted: TLC, the concretizer (it also states what it wrote), the independent classifier, the projections. Five spec-level negative controls (among them the two formatter caches of the round-2 seeded changes) and corrupted control traces are required to fail in every run.",
+    note="Small scope for the exhaustive part (<= 3 blocks x <= 3 body lines, formatting histories of <= 4 calls on two-block changelogs); payload characters are sampled (k concretizations per case, seeded; every 150th case size-stressed: long names/versions/lines, epochs >= 2**31, 100 pairs, runs of 100-1000 lines, 100-1000 blocks). Lines never contain a str.splitlines() boundary character (DESIGN D1). Trusted: TLC, the concretizer (it also states what it wrote), the independent classifier, the projections. Faults of caller-supplied inputs (iterator raises at line k; input ends early at a line end, inside a line, inside a multi-byte character) are steps of the histories that are never judged themselves; the parses after them are (Mode reuse: rs.carry x rs.f2 x rs.pf enumerated by TLC). Spec-level negative controls (among them the two formatter caches of the round-2 seeded changes, the sticky per-object flag and the per-process decoder tail) and corrupted control traces are required to fail in every run.",
     design="5 (C04)")
 
 NEG_CONTROLS = [("trailingFirst", {"RoundTrip"}),
@@ -234,7 +264,9 @@ def run(ctx):
         _cls, lines, _ = cc.gen_wellformed(rng, rng.choice([4, 8, 14, 20]))
         t = cc.record_edit_trace(rng, lines, aea=False, nops=rng.randint(2, 12), wf=True, stress=(i % 10 == 9), form=cc.FORMS[(i * 3) % len(cc.FORMS)])
         if t is None:
-            ctx.violation({"kind": "case", "classes": [], "lines": lines, "contents": [], "struct": {"ini": [], "bl": []}}, "lenient constructor raised on a well-formed text")
+            ctx.violation({"kind": "case", "classes": [], "lines": lines, "contents": [], "struct": {"ini": [], "bl": []}, "form": cc.FORMS[(i * 3) % len(cc.FORMS)]},
+                          "lenient constructor raised on a well-formed text (input form %s; earlier parses of this process: %d well-formed ones, %d of inputs that failed %s)"
+                          % (cc.FORMS[(i * 3) % len(cc.FORMS)], len(traces), sum(sum(v.values()) for v in cf.stats().values()), json.dumps(cf.stats())))
             continue
         traces.append(t)
     cfg = "MC_Changelog_c04_quick.cfg" if quick else "MC_Changelog_c04.cfg"
